@@ -1031,9 +1031,11 @@ def rand_dep5x(rng, case, pool, raw=None):
     """a dep5 paragraph with a wildcard (or naming one file), before or after the one-file paragraphs"""
     paths = [f["p"] for f in case["files"] if f["kind"] != "fifo"]
     p = rng.choice(paths)
-    kinds = ["all", "ext"] + (["below", "below"] if "/" in p else []) + (["lit", "lit"] if " " not in p else [])
+    # (the Files field of a dep5 paragraph is a white-space separated list: a name with a blank cannot be written into it)
+    kinds = ["all", "ext"] + (["below", "below"] if "/" in p and not any(c.isspace() for c in p.split("/")[0]) else []) + \
+        (["lit", "lit"] if not any(c.isspace() for c in p) else [])
     k = rng.choice(kinds)
-    if k == "ext" and not os.path.splitext(p)[1]:
+    if k == "ext" and (not os.path.splitext(p)[1] or any(c.isspace() for c in os.path.splitext(p)[1])):
         k = "all"
     pat = {"all": ["all"], "ext": ["ext", os.path.splitext(p)[1]], "below": ["below", p.split("/")[0]], "lit": ["lit", p]}[k]
     return {"pats": [pat], "cop": rng.randint(1, 2), "expr": rand_expr(rng, pool), "raw": raw, "pos": rng.choice(["before", "before", "after"])}
